@@ -1115,16 +1115,21 @@ stream_encoder_mt_init(lzma_next_coder *next, const lzma_allocator *allocator,
 		coder->threads_initialized = 0;
 	}
 
-	// Basic initializations
-	coder->sequence = SEQ_STREAM_HEADER;
-	coder->block_size = (size_t)(block_size);
-	coder->outbuf_alloc_size = (size_t)(outbuf_size_max);
-	coder->thread_error = LZMA_OK;
-	coder->thr = NULL;
-
 	// Allocate the thread-specific base structures.
+	//
+	// If this coder has been used already, the old worker threads are
+	// always ended before anything that they might access is modified.
+	// Earlier the threads were stopped and reused if the number of
+	// threads didn't change but that had several problems: the input
+	// buffers of the old threads were too small if the new block_size
+	// was bigger (buffer overflow), a thread that had been taken from
+	// coder->threads_free but hadn't started running yet never returned
+	// to that list (the encoder would wait for it forever), and a thread
+	// that had just become idle could still access the output queue
+	// and the progress counters while they were being reset here.
 	assert(options->threads > 0);
-	if (coder->threads_max != options->threads) {
+	if (coder->threads_max != options->threads
+			|| coder->threads_initialized > 0) {
 		if (coder->threads_initialized > 0)
 			VERIF_VISIT(VERIF_D_MT_ENC, VERIF_MTE_REINIT_END);
 
@@ -1143,14 +1148,14 @@ stream_encoder_mt_init(lzma_next_coder *next, const lzma_allocator *allocator,
 			return LZMA_MEM_ERROR;
 
 		coder->threads_max = options->threads;
-	} else {
-		// Reuse the old structures and threads. Tell the running
-		// threads to stop and wait until they have stopped.
-		if (coder->threads_initialized > 0)
-			VERIF_VISIT(VERIF_D_MT_ENC, VERIF_MTE_REINIT_REUSE);
-
-		threads_stop(coder, true);
 	}
+
+	// Basic initializations
+	coder->sequence = SEQ_STREAM_HEADER;
+	coder->block_size = (size_t)(block_size);
+	coder->outbuf_alloc_size = (size_t)(outbuf_size_max);
+	coder->thread_error = LZMA_OK;
+	coder->thr = NULL;
 
 	// Output queue
 	return_if_error(lzma_outq_init(&coder->outq, allocator,
